@@ -170,7 +170,8 @@ class C16(Property):
         'accepted as well (boltons prints none today)',
         'Callpoint.line / to_dict()["line"] keeps leading indentation; it is compared with FrameSummary.line after strip()',
         'call chains are shallower than sys.getrecursionlimit() (TracebackInfo stops at 1000 entries by default)',
-        'text is a sequence of Unicode scalar values; str() of the exception does not raise; no SyntaxError, '
+        'text is a sequence of Unicode scalar values; when str() of the exception raises, it raises an Exception (not a '
+        'bare BaseException such as KeyboardInterrupt); no SyntaxError, '
         'chained causes, notes or exception groups (excluded by the statement)',
         'character classes of re \\d, str.isspace and str.splitlines are regenerated from the running interpreter',
         'the reference for a live exception is the traceback module asked about the same traceback object in the same '
@@ -668,8 +669,10 @@ class C16(Property):
             mods.append(m)
         depth = rng.randint(0, 6) if not big else rng.randint(10, 30)
         links = [self.random_link(nm, big) for _ in range(depth)]
-        kind = rng.choice(['builtin', 'builtin', 'top', 'top', 'nested', 'inner', 'strsub', 'modattr'])
+        kind = rng.choice(['builtin', 'builtin', 'top', 'top', 'nested', 'inner', 'strsub', 'modattr', 'badstr'])
         exc = {'kind': kind, 'm': rng.randrange(nm), 'args': rng.choice(self.LIVE_ARGS)}
+        if kind == 'badstr':
+            exc['inner'] = rng.choice(['ZeroDivisionError', 'ValueError', 'TypeError', 'Exception', 'RecursionError'])
         if kind == 'builtin':
             exc['name'] = rng.choice(self.BUILTIN_EXC)
         if kind == 'modattr':
@@ -767,6 +770,12 @@ class C16(Property):
             yield case([pin], [call], exc={'kind': 'modattr', 'm': 0, 'args': ['x'], 'mod': mod})
         for args in self.LIVE_ARGS:
             yield case([pin], [], exc={'kind': 'strsub', 'm': 0, 'args': args})
+        # an exception whose __str__ raises
+        for inner in ('ZeroDivisionError', 'ValueError', 'Exception'):
+            for order in 'bs':
+                yield case([pin], [call], exc={'kind': 'badstr', 'm': 0, 'args': ['x'], 'inner': inner}, order=order)
+            yield case([pin], [], exc={'kind': 'top', 'm': 0, 'args': ['x']},
+                       prior=[{'kind': 'badstr', 'args': [], 'inner': inner, 'via': 'pe'}])
         # runs of identical entries (recursion): around the interpreter's cut-off of 3, 'time' / 'times', two runs,
         # a run cut by the limit, neighbours that share only two of file / line / name
         for n in (2, 3, 4, 5, 8):
@@ -829,7 +838,7 @@ class C16(Property):
 
     def random_capture(self, nm, prior):
         rng = self.rng
-        kind = rng.choice(['builtin', 'top', 'nested', 'inner', 'strsub', 'modattr'] + (['same', 'same'] if prior else []))
+        kind = rng.choice(['builtin', 'top', 'nested', 'inner', 'strsub', 'modattr', 'badstr'] + (['same', 'same'] if prior else []))
         c = {'kind': kind, 'args': rng.choice(self.LIVE_ARGS)}
         if kind == 'builtin':
             c['name'] = rng.choice(self.BUILTIN_EXC)
@@ -878,6 +887,11 @@ class C16(Property):
             cn = exc.get('cname', 'StrErr')
             L += ['class %s(Exception):' % cn, '    def __str__(self):',
                   '        return "/".join(str(a) for a in self.args)']
+            return cn
+        if k == 'badstr':
+            cn = exc.get('cname', 'BadStrErr')
+            L += ['class %s(Exception):' % cn, '    def __str__(self):',
+                  '        raise %s("str() of the exception raises")' % exc.get('inner', 'ZeroDivisionError')]
             return cn
         if k == 'modattr':
             cn = exc.get('cname', 'ModErr')
@@ -1147,15 +1161,26 @@ class C16(Property):
 
     @staticmethod
     def _type_attrs(et):
-        """what the interpreter hands over about the exception's class: [__module__ (None when it is no str), __qualname__]"""
+        """what the interpreter hands over about the exception's class: [__module__ (None when it is no str), __qualname__, __name__]"""
         mod = et.__module__
-        return [mod if isinstance(mod, str) else None, et.__qualname__]
+        return [mod if isinstance(mod, str) else None, et.__qualname__, et.__name__]
+
+    STR_FAILED = '<exception str() failed>'
+
+    @classmethod
+    def _std_str(cls, ev):
+        """(str() of the exception as the traceback module shows it, did str() raise); cross-checked against
+        traceback.format_exception_only by the callers"""
+        try:
+            return str(ev), False
+        except Exception:
+            return cls.STR_FAILED, True
 
     @staticmethod
     def _std_type(attrs):
         """the interpreter's display name of an exception class (traceback.TracebackException; written down here and
         cross-checked against traceback.format_exception_only on every capture)"""
-        mod, qual = attrs
+        mod, qual = attrs[0], attrs[1]
         if mod in ('__main__', 'builtins'):
             return qual
         return ('<unknown>' if mod is None else mod) + '.' + qual
@@ -1166,7 +1191,7 @@ class C16(Property):
         o = {'attrs': self._type_attrs(et)}
         only = traceback.format_exception_only(et, ev)
         o['std_only'] = ''.join(only)
-        o['std_msg'] = str(ev)
+        o['std_msg'], o['msg_raised'] = self._std_str(ev)
         o['std_type'] = self._std_type(o['attrs'])
         assert o['std_only'] == o['std_type'] + (': ' + o['std_msg'] if o['std_msg'] else '') + '\n'
         try:
@@ -1392,8 +1417,9 @@ class C16(Property):
                     obs['std_lim_fl'] = obs['std_fl'] if limit is None else None
                     obs['std_lim_plain'] = obs['std_plain'] if limit is None else None
                 stype = self._std_type(obs['attrs'])
-                assert only[-1] == stype + (': ' + str(ev) if str(ev) else '') + '\n'
-                obs['std_type'], obs['std_msg'] = stype, str(ev)
+                smsg, obs['msg_raised'] = self._std_str(ev)
+                assert only[-1] == stype + (': ' + smsg if smsg else '') + '\n'
+                obs['std_type'], obs['std_msg'] = stype, smsg
 
             def frames_of(tbi):
                 return [[cp.module_path, cp.lineno, cp.func_name, str(cp.line)] for cp in tbi.frames]
@@ -1534,9 +1560,11 @@ class C16(Property):
             tl = case.get('tblimit')
             def tt(attrs):
                 return ('!' if attrs[0] is None else hx(attrs[0])) + ':' + hx(attrs[1])
-            pri = ';'.join('%s:%s' % (tt(o['attrs']), hx(o['std_msg'])) for o in obs.get('prior') or []) or '-'
+            def mt(o):      # str() of the exception, `!` when it raised
+                return '!' if o.get('msg_raised') else hx(o['std_msg'])
+            pri = ';'.join('%s:%s' % (tt(o['attrs']), mt(o)) for o in obs.get('prior') or []) or '-'
             toks = ['L', 'n' if lim is None else str(lim), 'n' if tl is None else str(tl), tt(obs['attrs']),
-                    hx(obs['std_msg']), pri]
+                    mt(obs), pri]
             for fn, ln, name, fid, look in obs['walk']:
                 if look is None:
                     return None
@@ -1769,6 +1797,72 @@ class C16(Property):
                 and obs['ei'].replace(obs['ei_type'], obs['std_type']) + '\n' == obs['std_plain']
                 and obs.get('print') is None and obs.get('print_exc') == 'TypeError')
 
+    def _old_str_text(self, o):
+        return '<unprintable %s object>' % o['attrs'][2]
+
+    def _sub_old_str(self, obs):
+        """boltons' texts of the last capture with the pre-5cec9e6 text for a raising str() replaced by the interpreter's"""
+        if not obs.get('msg_raised'):
+            return lambda t: t
+        old = self._old_str_text(obs)
+        return lambda t: None if t is None else t.replace(old, self.STR_FAILED)
+
+    @staticmethod
+    def _layouts(obs, sub):
+        """(boltons text, the interpreter's text, the same with every entry printed on its own) per formatted output"""
+        out = [(sub(obs['ei']) + '\n', obs['std'], obs['std_plain']),
+               (sub(obs['print']), obs['std'], obs['std_plain']),
+               (sub(obs.get('cur', obs['ei'])) + '\n', obs['std'], obs['std_plain']),
+               (sub(obs.get('cei', obs['ei'])) + '\n', obs['std'], obs['std_plain']),
+               (obs['tbi'], obs['std_tb'], obs.get('std_tb_plain', obs['std_tb'])),
+               (obs.get('cur_tbi', obs['tbi']), obs['std_tb'], obs.get('std_tb_plain', obs['std_tb']))]
+        if obs.get('std_lim') is not None:
+            out.append((sub(obs.get('print_lim')), obs['std_lim'], obs.get('std_lim_plain')))
+        return out
+
+    def _uncollapsed_everywhere(self, obs, sub):
+        """every formatted output is exactly the interpreter's layout with each entry printed on its own"""
+        try:
+            return all(b == plain for b, _, plain in self._layouts(obs, sub))
+        except TypeError:       # an output is missing (None)
+            return False
+
+    def finding_str_raises(self, case, failure):
+        """live kind: str() of the exception raises; the interpreter prints '<exception str() failed>', boltons before fix
+        5cec9e6 the Python 2 text '<unprintable X object>'. Matched only while that text is the only difference (the
+        uncollapsed layout of the other repaired finding aside)"""
+        if case['k'] != 'l' or failure.tag not in ('exc_fields', 'format'):
+            return False
+        obs = self._live_obs(case)
+        pri = obs.get('prior') or []
+        if 'ei' not in obs or not (obs.get('msg_raised') or any(o.get('msg_raised') for o in pri)):
+            return False
+        for o in pri:
+            want = self._old_str_text(o) if o.get('msg_raised') else o['std_msg']
+            if 'exc' in o or o['ei_type'] != o['std_type'] or o['ei_msg'] != want:
+                return False
+            if o['ei_only'] != o['std_type'] + (': ' + want if want else '') or o['print'] != o['ei_only'] + '\n':
+                return False
+        if not obs.get('msg_raised'):
+            # the earlier captures show exactly the old text; the last capture must be in order by itself
+            # (or show one of the other known findings, judged by their own predicates)
+            rest = self.oracle(case, dict(obs, prior=[]))
+            if rest is None:
+                return True
+            rest.model_agrees = None    # the model (fixed code) differs on the earlier captures already
+            return any(pred(case, rest) for pred in (
+                self.finding_recursion_collapse, self.finding_collapse_line_not_parsed, self.finding_exotic_line_separators,
+                self.finding_message_trailing_newline))
+        if obs['ei_type'] != obs['std_type'] or obs['ei_msg'] != self._old_str_text(obs):
+            return False
+        if [f[:3] for f in obs['ei_frames']] != [f[:3] for f in obs['std_frames']]:
+            return False
+        # the old text aside, every output is the interpreter's - or (the other repaired finding) its uncollapsed layout
+        try:
+            return all(b == std or b == plain for b, std, plain in self._layouts(obs, self._sub_old_str(obs)))
+        except TypeError:
+            return False
+
     def finding_recursion_collapse(self, case, failure):
         """live kind, formatted output: the interpreter collapses more than 3 identical consecutive entries into
         '[Previous line repeated N more times]'; before fix 7fb4f9f boltons printed every entry. Matched only while
@@ -1779,12 +1873,7 @@ class C16(Property):
         obs = self._live_obs(case)
         if 'std' not in obs or not any('  [Previous line repeated ' in (obs.get(k) or '') for k in ('std', 'std_tb', 'std_lim')):
             return False
-        plain = obs['std_plain']
-        tb_plain = obs.get('std_tb_plain', obs['std_tb'])
-        return (obs['ei'] + '\n' == plain and obs['print'] == plain
-                and obs.get('cur', obs['ei']) + '\n' == plain and obs.get('cei', obs['ei']) + '\n' == plain
-                and (obs.get('std_lim_plain') is None or obs.get('print_lim') == obs['std_lim_plain'])
-                and obs['tbi'] == tb_plain and obs.get('cur_tbi', obs['tbi']) == tb_plain)
+        return self._uncollapsed_everywhere(obs, self._sub_old_str(obs))
 
     def finding_collapse_line_not_parsed(self, case, failure):
         """live kind, the interpreter's own text through from_string: a '[Previous line repeated N more times]' line is
